@@ -173,7 +173,10 @@ M_C06_Grant ==
               ord(x) == IF Timed(s2) THEN Pos(av, x) ELSE x
               tok   == CHOOSE t \in {s2.getRes[k] : k \in 1..Len(s2.getRes)} : t.n = n
           IN /\ b \in U
-             /\ CASE Kind = "filter" -> FltOk(tok.flt, av[Pos(av, b)])
+             /\ CASE Kind = "filter" ->
+                       LET M == {x \in U : FltOk(tok.flt, av[Pos(av, x)])} IN
+                       /\ b \in M
+                       /\ IF M \cap R # {} THEN b \in R ELSE \A x \in M : ord(b) <= ord(x)
                   [] Kind = "buffer" /\ Mode = "LIFO" -> \A x \in U : ord(x) <= ord(b)
                   [] OTHER -> IF R # {} THEN b \in R ELSE \A x \in U : ord(b) <= ord(x)
 
